@@ -79,10 +79,20 @@ def run(tier, seed):
         "remainder reference; for c <= 11,092,110 additionally 0 <= hash < 253^4; call_sequences: every ordered triple over 15 boundary challenges and every ordered 4-sequence over 6 (hidden-state detection)",
         "samples": [{"challenge": c, "hash": h(c)} for c in (0, 1, 12345, 11092003, 11092004, 11092110, 11092479, P3 - 1)],
     }
+    from .. import kwforms
+
+    for w in kwforms.check("hash"):
+        violations.append({"key": "keyword-form:" + w.split(":")[0][:60], "what": w, "case": {"kwforms": True}})
+    coverage["keyword_call_forms_checked"] = True
     return {"coverage": coverage, "violations": violations}
 
 
 def replay(case):
+    if isinstance(case, dict) and case.get("kwforms"):
+        from .. import kwforms
+
+        bad = kwforms.check("hash")
+        return bad[0] if bad else None
     loader.install_shims()
     h = loader.lib("eolib.encrypt.server_verification_utils").server_verification_hash
     if case.get("upto"):
